@@ -6,7 +6,10 @@ import (
 	"sort"
 	"strings"
 
+	"golang.org/x/image/font/gofont/gobolditalic"
+	"golang.org/x/image/font/gofont/gomono"
 	"golang.org/x/image/font/gofont/goregular"
+	"golang.org/x/image/font/gofont/gosmallcaps"
 	ximg "golang.org/x/image/font/sfnt"
 	"golang.org/x/image/math/fixed"
 	"seehuhn.de/go/sfnt"
@@ -23,8 +26,9 @@ import (
 func fontfileBuild(f Fields) *sfnt.Font {
 	var font *sfnt.Font
 	switch f["base"] {
-	case "goregular":
-		x, err := sfnt.Read(bytes.NewReader(goregular.TTF))
+	case "goregular", "gomono", "gobolditalic", "gosmallcaps":
+		raw := map[string][]byte{"goregular": goregular.TTF, "gomono": gomono.TTF, "gobolditalic": gobolditalic.TTF, "gosmallcaps": gosmallcaps.TTF}[f["base"]]
+		x, err := sfnt.Read(bytes.NewReader(raw))
 		if err != nil {
 			panic(err)
 		}
@@ -124,6 +128,32 @@ func init() {
 			return hx(data)
 		}))
 	}
+	ops["header.xoutline"] = func(f Fields) string {
+		return canonPanic(guard(func() string {
+			font, data := fontfileWrite(f)
+			res := fontfileOutlines(font, data) // the font as it was before Write
+			if strings.HasPrefix(res, "ok:") {
+				return "ok"
+			}
+			return res
+		}))
+	}
+	ops["header.xcounts"] = func(f Fields) string { // diagnostic: how much the two comparisons covered
+		return canonPanic(guard(func() string {
+			font, data := fontfileWrite(f)
+			return fontfileOutlines(font, data) + " " + fontfileNames(font, data)
+		}))
+	}
+	ops["header.xnames"] = func(f Fields) string {
+		return canonPanic(guard(func() string {
+			font, data := fontfileWrite(f)
+			res := fontfileNames(font, data)
+			if strings.HasPrefix(res, "ok:") {
+				return "ok"
+			}
+			return res
+		}))
+	}
 	ops["header.ximage"] = func(f Fields) string {
 		return canonPanic(guard(func() string {
 			font, data := fontfileWrite(f)
@@ -155,21 +185,243 @@ func init() {
 	}
 }
 
+// fontfileOutlines compares, glyph by glyph, what the independent implementation draws with the
+// outline data of the font value that was written.  Order-independent form:
+//   - TrueType simple glyphs: the control points of the quadratic segments are exactly the
+//     off-curve points; every on-curve point is a segment end point; every other end point is
+//     the (rounded) midpoint of two off-curve points.  Composite glyphs: the union over the
+//     components is not recomputed here; they are counted and skipped.
+//   - CFF glyphs with integral coordinates: the segment list equals the command list
+//     (moveto/lineto/curveto; x/image closes open sub-paths with a lineto).
+// It returns "ok:<simple>/<composite>/<cff>" or the first discrepancy.
+func fontfileOutlines(font *sfnt.Font, data []byte) string {
+	xf, err := ximg.Parse(data)
+	if err != nil {
+		return "ximage-rejects"
+	}
+	var b ximg.Buffer
+	ppem := fixed.I(int(font.UnitsPerEm))
+	type pt struct{ x, y int }
+	nSimple, nComp, nCff := 0, 0, 0
+	for gid := 0; gid < font.NumGlyphs(); gid++ {
+		segs, err := xf.LoadGlyph(&b, ximg.GlyphIndex(gid), ppem, nil)
+		if err != nil {
+			return fmt.Sprintf("g%d:ximage-loadglyph:%s", gid, strings.ReplaceAll(err.Error(), " ", "_"))
+		}
+		conv := func(p fixed.Point26_6) (pt, bool) {
+			if p.X%64 != 0 || p.Y%64 != 0 {
+				return pt{}, false
+			}
+			return pt{int(p.X) / 64, -int(p.Y) / 64}, true
+		}
+		switch o := font.Outlines.(type) {
+		case *glyf.Outlines:
+			g := o.Glyphs[gid]
+			if g == nil {
+				if len(segs) != 0 {
+					return fmt.Sprintf("g%d:empty-glyph-drawn", gid)
+				}
+				continue
+			}
+			sg, ok := g.Data.(glyf.SimpleGlyph)
+			if !ok {
+				nComp++
+				continue
+			}
+			info, err := sg.Decode()
+			if err != nil {
+				return fmt.Sprintf("g%d:own-decode-error", gid)
+			}
+			on, off := map[pt]bool{}, map[pt]bool{}
+			var offs []pt
+			for _, cc := range info.Contours {
+				for _, p := range cc {
+					q := pt{int(p.X), int(p.Y)}
+					if p.OnCurve {
+						on[q] = true
+					} else {
+						off[q] = true
+						offs = append(offs, q)
+					}
+				}
+			}
+			isMid := func(q pt) bool {
+				for _, a := range offs {
+					for _, c := range offs {
+						mx, my := a.x+c.x, a.y+c.y
+						if (mx/2 == q.x || (mx+1)/2 == q.x || (mx-1)/2 == q.x) && (my/2 == q.y || (my+1)/2 == q.y || (my-1)/2 == q.y) {
+							return true
+						}
+					}
+				}
+				return false
+			}
+			ctl, end := map[pt]bool{}, map[pt]bool{}
+			for _, sgm := range segs {
+				switch sgm.Op {
+				case ximg.SegmentOpMoveTo, ximg.SegmentOpLineTo:
+					q, ok := conv(sgm.Args[0])
+					if !ok {
+						return fmt.Sprintf("g%d:fractional", gid)
+					}
+					end[q] = true
+				case ximg.SegmentOpQuadTo:
+					q0, ok0 := conv(sgm.Args[0])
+					q1, ok1 := conv(sgm.Args[1])
+					if !ok0 || !ok1 {
+						return fmt.Sprintf("g%d:fractional", gid)
+					}
+					ctl[q0] = true
+					end[q1] = true
+				default:
+					return fmt.Sprintf("g%d:cubic-in-truetype", gid)
+				}
+			}
+			for q := range off {
+				if !ctl[q] {
+					return fmt.Sprintf("g%d:off-curve-point-%d,%d-not-drawn", gid, q.x, q.y)
+				}
+			}
+			for q := range ctl {
+				if !off[q] {
+					return fmt.Sprintf("g%d:control-%d,%d-not-a-point", gid, q.x, q.y)
+				}
+			}
+			for q := range on {
+				if !end[q] {
+					return fmt.Sprintf("g%d:on-curve-point-%d,%d-not-drawn", gid, q.x, q.y)
+				}
+			}
+			for q := range end {
+				if !on[q] && !isMid(q) {
+					return fmt.Sprintf("g%d:end-point-%d,%d-not-a-point", gid, q.x, q.y)
+				}
+			}
+			nSimple++
+		case *cff.Outlines:
+			g := o.Glyphs[gid]
+			var want []string
+			integral := true
+			var start, cur [2]float64
+			open := false
+			closeSub := func() {
+				if open && cur != start {
+					want = append(want, fmt.Sprintf("L%v,%v", start[0], start[1]))
+				}
+			}
+			for _, cmd := range g.Cmds {
+				for _, a := range cmd.Args {
+					if a != float64(int(a)) {
+						integral = false
+					}
+				}
+				switch cmd.Op {
+				case cff.OpMoveTo:
+					closeSub()
+					want = append(want, fmt.Sprintf("M%v,%v", cmd.Args[0], cmd.Args[1]))
+					start = [2]float64{cmd.Args[0], cmd.Args[1]}
+					cur = start
+					open = true
+				case cff.OpLineTo:
+					want = append(want, fmt.Sprintf("L%v,%v", cmd.Args[0], cmd.Args[1]))
+					cur = [2]float64{cmd.Args[0], cmd.Args[1]}
+				case cff.OpCurveTo:
+					want = append(want, fmt.Sprintf("C%v,%v,%v,%v,%v,%v", cmd.Args[0], cmd.Args[1], cmd.Args[2], cmd.Args[3], cmd.Args[4], cmd.Args[5]))
+					cur = [2]float64{cmd.Args[4], cmd.Args[5]}
+				}
+			}
+			closeSub()
+			if !integral {
+				continue
+			}
+			var got []string
+			for _, sgm := range segs {
+				f := func(i int) string {
+					return fmt.Sprintf("%v,%v", float64(sgm.Args[i].X)/64, -float64(sgm.Args[i].Y)/64)
+				}
+				switch sgm.Op {
+				case ximg.SegmentOpMoveTo:
+					got = append(got, "M"+f(0))
+				case ximg.SegmentOpLineTo:
+					got = append(got, "L"+f(0))
+				case ximg.SegmentOpCubeTo:
+					got = append(got, "C"+f(0)+","+f(1)+","+f(2))
+				default:
+					got = append(got, "Q")
+				}
+			}
+			gs, ws := fontfileNoNegZero(strings.Join(got, ";")), fontfileNoNegZero(strings.Join(want, ";"))
+			if gs != ws {
+				return fmt.Sprintf("g%d:cff-outline-differs:ximage=%s:own=%s", gid, gs, ws)
+			}
+			nCff++
+		}
+	}
+	return fmt.Sprintf("ok:%d/%d/%d", nSimple, nComp, nCff)
+}
+
+// fontfileNoNegZero writes "-0" as "0" (x/image negates y, the library stores float64)
+func fontfileNoNegZero(s string) string {
+	var out []string
+	for _, seg := range strings.Split(s, ";") {
+		if seg == "" {
+			continue
+		}
+		nums := strings.Split(seg[1:], ",")
+		for i, n := range nums {
+			if n == "-0" {
+				nums[i] = "0"
+			}
+		}
+		out = append(out, seg[:1]+strings.Join(nums, ","))
+	}
+	return strings.Join(out, ";")
+}
+
+// fontfileNames compares the glyph names the independent implementation reads from the post
+// table with the library's (TrueType files; x/image has no glyph names for CFF fonts).
+func fontfileNames(font *sfnt.Font, data []byte) string {
+	xf, err := ximg.Parse(data)
+	if err != nil {
+		return "ximage-rejects"
+	}
+	var b ximg.Buffer
+	n := 0
+	if font.IsCFF() {
+		return "ok:0"
+	}
+	for gid := 0; gid < font.NumGlyphs(); gid++ {
+		own := font.GlyphName(glyph.ID(gid))
+		name, err := xf.GlyphName(&b, ximg.GlyphIndex(gid))
+		if err != nil {
+			if own == "" || font.IsCFF() {
+				continue
+			}
+			return fmt.Sprintf("g%d:ximage-has-no-name-for-%s", gid, hx([]byte(own)))
+		}
+		if own == "" && !font.IsCFF() {
+			continue // post format 3: x/image falls back to nothing, the library has no names
+		}
+		if name != own {
+			return fmt.Sprintf("g%d:name-%s-vs-%s", gid, hx([]byte(name)), hx([]byte(own)))
+		}
+		n++
+	}
+	return fmt.Sprintf("ok:%d", n)
+}
+
 func areaFontfile(c *Ctx) {
 	r := c.Rng
 	n := c.N
 	for i := 0; i < n; i++ {
-		base := Pick(r, []string{"goregular", "debug"})
+		base := Pick(r, []string{"goregular", "debug", "gomono", "gobolditalic", "gosmallcaps", "debug"})
 		switch i {
 		case 0, 2:
 			base = "goregular"
 		case 1, 3:
 			base = "debug"
 		}
-		total := 649
-		if base == "debug" {
-			total = 33
-		}
+		total := fontfileBuild(Fields{"base": base, "widths": "keep"}).NumGlyphs()
 		var glyphs []int
 		if i >= 4 { // the first four cases are the complete fonts
 			k := r.Range(1, 40)
@@ -217,5 +469,15 @@ func areaFontfile(c *Ctx) {
 		font := fontfileBuild(parseFields(args))
 		want := fontfileOwn(font, fontfileProbeRunes(parseFields(args)))
 		c.Case(Direct, "header.ximage", args+" want="+want, true)
+		// (3) it draws the same outlines and reads the same glyph names
+		c.Case(Direct, "header.xoutline", args, true)
+		c.Case(Direct, "header.xnames", args, true)
+		var a, b2, c3, d int
+		if _, err := fmt.Sscanf(Exec("header.xcounts "+args), "ok:%d/%d/%d ok:%d", &a, &b2, &c3, &d); err == nil {
+			c.Stat("xoutline.simple-glyphs", bucket(a))
+			c.Stat("xoutline.composite-skipped", bucket(b2))
+			c.Stat("xoutline.cff-glyphs", bucket(c3))
+			c.Stat("xnames.compared", bucket(d))
+		}
 	}
 }
